@@ -15,7 +15,9 @@ import (
 func init() { reg("C16", "ts", c16ts) }
 
 var c16layouts = []string{time.RFC3339, time.RFC3339Nano, time.RFC1123Z, time.RFC822Z, time.Kitchen, time.StampMicro, "2006-01-02 15:04:05.000 -0700", "02/01/06 15h04", slog.DateTime,
-	"15:04:05.999999999Z07:00", time.ANSIC, "Mon Jan _2 2006", "2006-01-02T15:04:05.000000000Z07:00", "20060102-150405.000000-0700"}
+	"15:04:05.999999999Z07:00", time.ANSIC, "Mon Jan _2 2006", "2006-01-02T15:04:05.000000000Z07:00", "20060102-150405.000000-0700",
+	// layouts that print the zone ABBREVIATION: in UTC mode that is "UTC", whatever the instant's own zone is called
+	time.RFC1123, time.RFC850, time.RFC822, time.UnixDate, "2006-01-02 15:04:05.000 MST", "15:04 MST -0700"}
 
 var c16flagTable = map[slog.Flags]string{
 	slog.Ldate:                                   "2006-01-02",
@@ -83,7 +85,9 @@ func c16ts(c *Ctx) {
 	log := mon.NewLog()
 	w := mon.New(log, "W", mon.ShapePlain)
 	zones := append([]*time.Location(nil), gen.Zones...)
-	for _, n := range []string{"America/New_York", "Asia/Kolkata", "Australia/Lord_Howe", "Europe/Berlin", "Pacific/Chatham"} {
+	// zones that sit at offset zero without being UTC
+	zones = append(zones, time.FixedZone("GMT", 0), time.FixedZone("WET", 0), time.FixedZone("Z", 0))
+	for _, n := range []string{"America/New_York", "Asia/Kolkata", "Australia/Lord_Howe", "Europe/Berlin", "Pacific/Chatham", "Europe/London", "Europe/Lisbon", "Africa/Abidjan", "Atlantic/Reykjavik"} {
 		if l, err := time.LoadLocation(n); err == nil {
 			zones = append(zones, l)
 		}
@@ -137,9 +141,38 @@ func c16ts(c *Ctx) {
 			layout = gen.Pick(r, c16layouts)
 			lg.SetTimeFormat(layout)
 		}
+		// the same settings reached through a derived logger instead: parent.WithTimeFormat(..) / parent.WithUTCMode(..),
+		// and a SIBLING derived from the same parent with other arguments before the first one is used
+		derived := "-"
+		if r.P(35) && (layout != "" || utc != 0) {
+			parent := newRoot(gen.Pick(r, []string{"", "t16"}), f, w, slog.AlwaysLevel)
+			var child *slog.Entry
+			if layout != "" && (utc == 0 || r.Bool()) {
+				child = parent.WithTimeFormat(layout)
+				other := gen.Pick(r, c16layouts)
+				_ = parent.WithTimeFormat(other)
+				derived = "WithTimeFormat, then a sibling WithTimeFormat(" + other + ")"
+				switch utc {
+				case 1:
+					child.SetUTCMode(false)
+				case 2:
+					child.SetUTCMode(true)
+				}
+			} else {
+				child = parent.WithUTCMode(utc == 2)
+				_ = parent.WithUTCMode(utc != 2)
+				derived = "WithUTCMode, then a sibling WithUTCMode with the opposite argument"
+				if layout != "" {
+					child.SetTimeFormat(layout)
+				}
+			}
+			child.SetWriter(w).SetErrorWriter(w)
+			lg = child
+			c.R.Add("cases_through_a_derived_logger_with_a_sibling", 1)
+		}
 		ts := c16instant(r, zones)
 		evs := capture(log, func() { lg.WriteThru(bg, slog.InfoLevel, ts, thePC, "tsprobe", nil) })
-		desc := map[string]any{"after_saveflags_window": window, "format": f.String(), "flags": flagNames(fl), "utc_mode": []string{"unset", "local (SetUTCMode(false))", "utc"}[utc], "logger_layout": layout, "instant": ts.Format(time.RFC3339Nano), "zone": ts.Location().String()}
+		desc := map[string]any{"derived": derived, "after_saveflags_window": window, "format": f.String(), "flags": flagNames(fl), "utc_mode": []string{"unset", "local (SetUTCMode(false))", "utc"}[utc], "logger_layout": layout, "instant": ts.Format(time.RFC3339Nano), "zone": ts.Location().String()}
 		if len(evs) != 1 {
 			c.R.Violation(idx, "one-write", "C16/one-write", fmtEvents(evs), desc)
 			return
